@@ -169,7 +169,7 @@ func TestC02(t *testing.T) {
 				}
 				got, err := ses.client(c.Port).Do(c)
 				if err != nil {
-					undecided(t, rec, fmt.Sprintf("C02 %s step %d: %v", cfg, i, err))
+					undecidedOrHang(t, rec, st, ses.client(c.Port), err, fmt.Sprintf("C02 %s step %d (%s): %v", cfg, i, c, err))
 				}
 				outs = append(outs, canonOutcome(got))
 				if d := l1SubsetOfL2(st); d != "" {
